@@ -4,8 +4,9 @@
   Sequential half: in the model an Update returns `Out.callback arg`: the single place in
   `Leaf.upsert` where the callback function is applied, on each of the three leaf
   paths, is reached exactly once per call (`C05_update_seq`, `C05_counter_seq`).
-  Concurrent half (`C05_update_atomic_partial`, programs without Delete — the full statement
-  follows C03's): in the history that is proved linearizable the response of an Update IS the
+  Concurrent half (`C05_update_atomic`, every program family incl. Delete; and
+  `C05_callback_exactly_once`: in every reachable configuration each thread's callback has
+  been invoked exactly once per returned Update, plus once if it is inside one): in the history that is proved linearizable the response of an Update IS the
   argument its callback received, so linearizability w.r.t. `Spec` (where
   `update k f` returns `lookup k` and stores `f (lookup k)`) says exactly: the callback sees
   the value current at the operation's linearization point and its result is what that point
@@ -14,7 +15,7 @@
   run while holding the leaf, with argument `Spec.lookup` of the abstract map at that moment.
 -/
 import Gobptree.Proofs.RunOk
-import Gobptree.Proofs.CFinal
+import Gobptree.Proofs.CFinal2
 
 namespace Gobptree
 
@@ -71,6 +72,26 @@ theorem C05_update_atomic_partial (lt : K → K → Bool) (P : Params K) (tree :
       Spec.step lt m (Op.update k f) = (Spec.update lt m k f, Out.callback (Spec.lookup lt m k))) :=
   ⟨linearizable_nodelete' lt P tree progs hkp ht hord ho hp hd hnd c hr, fun _ _ _ => rfl⟩
 
+/-- **C05 (concurrent): Update is atomic under every schedule**, Deletes running alongside. -/
+theorem C05_update_atomic (lt : K → K → Bool) (P : Params K) (tree : Tree K V) (progs : List (List (COp K V)))
+    (hkp : KParams lt P) (ht : TreeOk none tree) (hord : OrdTree lt tree) (hsep : SepTree lt tree)
+    (ho : tree.order = P.order) (hp : PadOk P) (hd : Disciplined progs)
+    (c : Config K V) (hr : Reachable (Config.init P tree progs) c) :
+    Lin.Linearizable lt tree.abs (history c) ∧
+    (∀ (m : List (K × V)) (k : K) (f : Option V → V),
+      Spec.step lt m (Op.update k f) = (Spec.update lt m k f, Out.callback (Spec.lookup lt m k))) :=
+  ⟨linearizable_full' lt P tree progs hkp ht hord hsep ho hp hd c hr, fun _ _ _ => rfl⟩
+
+/-- **C05: the callback is invoked exactly once per Update, under every schedule.** At every
+    moment the number of callback invocations of a thread equals the number of its Updates
+    that have returned, plus one if it is currently inside an Update's callback; Insert never
+    invokes one, and an Update that has not reached its leaf has not yet. -/
+theorem C05_callback_exactly_once (P : Params K) (tree : Tree K V) (progs : List (List (COp K V)))
+    (ht : TreeOk none tree) (ho : tree.order = P.order) (hp : PadOk P) (hd : Disciplined progs)
+    (c : Config K V) (hr : Reachable (Config.init P tree progs) c) :
+    ∀ t th, c.threads[t]? = some th → cbCount c t = updReturned c t + inCallback th :=
+  callback_exactly_once P tree progs ht ho hp hd c hr
+
 /-- **C05 (per stretch): the callback is invoked at the leaf, with the current value.** Whenever
     a stretch of an Insert/Update continuation appends a callback note, its argument is
     `Spec.lookup` of the abstract map at the start of the stretch (structural rewrites before
@@ -92,3 +113,5 @@ end Gobptree.Conc
 #print axioms Gobptree.C05_counter_seq
 #print axioms Gobptree.Conc.C05_update_atomic_partial
 #print axioms Gobptree.Conc.C05_callback_at_leaf_partial
+#print axioms Gobptree.Conc.C05_update_atomic
+#print axioms Gobptree.Conc.C05_callback_exactly_once
